@@ -4,7 +4,7 @@ import session
 
 C06_PREDS = ["C06_UniqueIds", "C06_NoDupPairs", "C06_PairsFromCurrent", "C06_SelListed", "C06_IdStable",
              "C06_RemotesDeduped", "C06_NoResidue", "C06_NoResidueNew", "C06_SupersessionPreserves"]
-C02_PREDS = ["C02_BadRequestInert", "C02_BadResponseInert", "C02_ErrorInert", "C02_IndicationOnlyLiveness",
+C02_PREDS = ["C02_BadRequestInert", "C02_BadResponseInert", "C02_ErrorInert", "C02_NonBindingInert", "C02_IndicationOnlyLiveness",
              "C02_UnmatchedResponse", "C02_MatchedOnly"]
 C03_PREDS = ["C03_SelValidated", "C03_LiteSelectsOnNomination", "C03_NoUCFromControlled", "C03_LiteNeverRequests", "C03_NoDowngrade"]
 C04_PREDS = ["C04_TimingRule", "C04_CheckingDeadline", "C04_LifecycleStrict", "C04_NotifiedIsActual", "C04_SelWhileConnected",
